@@ -412,6 +412,10 @@ m4_define(`ppl_@CLASS@_positive_time_elapse_assign_code',
 ppl_@CLASS@_positive_time_elapse_assign
 (ppl_@CLASS@_t x,
  ppl_const_@CLASS@_t y) try {
+  if (Interfaces::is_necessarily_closed_for_interfaces(*to_const(x))
+      != Interfaces::is_necessarily_closed_for_interfaces(*to_const(y)))
+    throw std::invalid_argument("PPL C interface: ppl_@CLASS@_positive_time_elapse_assign(x|COMMA| y):\n"
+                                "x and y are topology-incompatible.");
   if (Interfaces::is_necessarily_closed_for_interfaces(*to_const(x))) {
     C_Polyhedron& xx = static_cast<C_Polyhedron&>(*to_nonconst(x));
     const C_Polyhedron& yy = static_cast<const C_Polyhedron&>(*to_const(y));
@@ -442,7 +446,11 @@ CATCH_ALL
   ')
 
 m4_define(`m4_ub_exact_for_polyhedron_domains',
-` if (Interfaces::is_necessarily_closed_for_interfaces(*to_const(x))) {
+`  if (Interfaces::is_necessarily_closed_for_interfaces(*to_const(x))
+      != Interfaces::is_necessarily_closed_for_interfaces(*to_const(y)))
+    throw std::invalid_argument("PPL C interface: ppl_@CLASS@_@UB_EXACT@(x|COMMA| y):\n"
+                                "x and y are topology-incompatible.");
+ if (Interfaces::is_necessarily_closed_for_interfaces(*to_const(x))) {
     C_Polyhedron& xx = static_cast<C_Polyhedron&>(*to_nonconst(x));
     const C_Polyhedron& yy = static_cast<const C_Polyhedron&>(*to_const(y));
     return xx.upper_bound_assign_if_exact(yy) ? 1 : 0;
@@ -1210,6 +1218,10 @@ CATCH_ALL
 
 m4_define(`m4_linear_partition_for_polyhedron_domains',
 `dnl
+  if (Interfaces::is_necessarily_closed_for_interfaces(*to_const(x))
+      != Interfaces::is_necessarily_closed_for_interfaces(*to_const(y)))
+    throw std::invalid_argument("PPL C interface: ppl_@CLASS@_linear_@PARTITION@(x|COMMA| y):\n"
+                                "x and y are topology-incompatible.");
  if (Interfaces::is_necessarily_closed_for_interfaces(*to_const(x))) {
     const C_@CPP_CLASS@& xx
       = static_cast<const C_@CPP_CLASS@&>(*to_const(x));
